@@ -38,13 +38,26 @@ var hostNodes = map[string]hostNode{
 }
 var hostOrder = []string{"chr1", "chr2", "blk1", "blk2", "fifo", "file", "gone", "chr0"}
 
-func setupHostNodes() bool {
+// hostAt: what lies under the path called `name` in a case with rotation `rot`: the paths keep their names from
+// case to case while the nodes behind them change (so nothing remembered about a path from an earlier Apply in
+// this process is still true)
+func hostAt(name string, rot int) hostNode {
+	for i, n := range hostOrder {
+		if n == name {
+			return hostNodes[hostOrder[(i+rot)%len(hostOrder)]]
+		}
+	}
+	return hostNodes[name]
+}
+
+func setupHostNodes(rot int) bool {
 	_ = os.RemoveAll(applyRoot)
 	if err := os.MkdirAll(applyRoot, 0o755); err != nil {
 		return false
 	}
 	ok := true
-	for name, n := range hostNodes {
+	for name := range hostNodes {
+		n := hostAt(name, rot)
 		p := filepath.Join(applyRoot, name)
 		var err error
 		switch n.Kind {
@@ -64,10 +77,10 @@ func setupHostNodes() bool {
 	return ok
 }
 
-func hostView() []any {
+func hostView(rot int) []any {
 	var out []any
 	for _, name := range hostOrder {
-		n := hostNodes[name]
+		n := hostAt(name, rot)
 		if n.Kind == "missing" {
 			continue
 		}
@@ -361,14 +374,15 @@ func (applyStream) Generate(rng *rand.Rand, tier string, emit func(Case)) {
 		}
 		oj, _ := json.Marshal(o)
 		ej, _ := json.Marshal(e)
-		emit(Case{"op": "apply", "ocijson": string(oj), "editsjson": string(ej)})
+		emit(Case{"op": "apply", "ocijson": string(oj), "editsjson": string(ej), "hostrot": rng.Intn(len(hostOrder))})
 	}
 }
 
 func (applyStream) Execute(c Case) {
 	obs := map[string]any{"panic": false, "err": false, "frame": true}
 	c["obs"] = obs
-	if !setupHostNodes() {
+	rot := kindIdx(c["hostrot"])
+	if !setupHostNodes(rot) {
 		skip("mknod not permitted: host-stat cases run without device nodes")
 	}
 	defer os.RemoveAll(applyRoot)
@@ -378,7 +392,7 @@ func (applyStream) Execute(c Case) {
 	_ = json.Unmarshal([]byte(c["editsjson"].(string)), &e)
 	c["oci"] = ociToProto(&o)
 	c["edits"] = editsToProto(&e)
-	c["host"] = hostView()
+	c["host"] = hostView(rot)
 	before := frameImage(&o)
 	defer func() {
 		if r := recover(); r != nil {
